@@ -1358,6 +1358,71 @@ pub fn enumerate_c14(_thorough: bool, part: usize, parts: usize, sink: &mut crat
         let o = crate::runner::on_user_stack(|| wide_alphabet_case(n, m));
         sink.case(&o, true, || format!("scale case: {} states x {} labelled characters, all views", n, m));
     }
+    // near-twin partitions in two states of one automaton: the second state's two intervals have the same
+    // bounds as the first state's except for one flipped bit in each of two bounds (every pair of bounds,
+    // every pair of bit positions): a combined partition that recognises "the same partition again" by an
+    // XOR-linear signature loses the bounds of the twin
+    {
+        use aws_smt_strings::automata::AutomatonBuilder;
+        use aws_smt_strings::character_sets::CharSet;
+        let mut idx = 0usize;
+        let mut n_twin = 0usize;
+        for base in [[0u32, 2000, 3000, 4000], [0x10000, 0x18000, 0x20000, 0x28000], [5, 0x155, 0x2AAAA, 0x2FFF0]] {
+            for p in 0..4usize {
+                for q in (p + 1)..4 {
+                    for i in 0..18u32 {
+                        for j in 0..18u32 {
+                            idx += 1;
+                            if idx % parts != part {
+                                continue;
+                            }
+                            let mut tw = base;
+                            tw[p] ^= 1 << i;
+                            tw[q] ^= 1 << j;
+                            if !(tw[0] <= tw[1] && tw[1] < tw[2] && tw[2] <= tw[3] && tw[3] <= MAX) {
+                                continue;
+                            }
+                            let mut o = Outcome::default();
+                            let built = catch(|| {
+                                let mut b: AutomatonBuilder<u32> = AutomatonBuilder::new(&0);
+                                b.add_transition(&0, &CharSet::range(base[0], base[1]), &1);
+                                b.add_transition(&0, &CharSet::range(base[2], base[3]), &2);
+                                b.set_default_successor(&0, &3);
+                                b.add_transition(&1, &CharSet::range(tw[0], tw[1]), &2);
+                                b.add_transition(&1, &CharSet::range(tw[2], tw[3]), &0);
+                                b.set_default_successor(&1, &3);
+                                b.set_default_successor(&2, &1);
+                                b.set_default_successor(&3, &3);
+                                b.mark_final(&2);
+                                b.build()
+                            });
+                            let what = format!("state 0 with intervals [{:#x},{:#x}] [{:#x},{:#x}], state 1 with [{:#x},{:#x}] [{:#x},{:#x}]", base[0], base[1], base[2], base[3], tw[0], tw[1], tw[2], tw[3]);
+                            match built {
+                                Ok(Ok(a)) => {
+                                    let mut probes: Vec<u32> = vec![0, MAX];
+                                    for &c in base.iter().chain(tw.iter()) {
+                                        probes.extend([c.saturating_sub(1), c, (c + 1).min(MAX)]);
+                                    }
+                                    check_views(&what, &a, &probes, &mut o);
+                                }
+                                Ok(Err(e)) => o.fail("C14/good-spec-rejected", format!("{}: build failed: {:?}", what, e)),
+                                Err(msg) => o.fail("C14/panics", format!("{}: {}", what, msg)),
+                            }
+                            n_twin += 1;
+                            sink.case(&o, true, || format!("near-twin partitions: {}", what));
+                            if sink.failed() {
+                                return;
+                            }
+                        }
+                    }
+                }
+            }
+        }
+        let _ = n_twin;
+        if part == 0 {
+            sink.stats.exhaustive_spaces.push("near-twin partitions in two states of one automaton: three base pairs of intervals, the second state's bounds equal to the first's except one flipped bit in each of two bounds — every pair of bounds x every pair of bit positions 0..17 (those that keep the intervals well-formed)".to_string());
+        }
+    }
     if part == 0 {
         sink.stats.exhaustive_spaces.push("2 wide-alphabet cases: 3 states x 300 and 5 states x 70 000 single-character transitions: combined partition, representative alphabet, every cell of the compiled successor table, edges".to_string());
         sink.stats.exhaustive_spaces.push("7 scale cases (run on an 8 MiB stack): chains of 1 / 2 / 40 / 700 / 70 000 / 400 000 / 1 000 000 states with a sink and 0 - 66 000 unreachable states (a cycle pointing into the chain): built, pruned, counts and language on fixed words; all views on the four small ones".to_string());
